@@ -339,8 +339,19 @@ func (r *RegionScatterer) selectCandidates(region *core.RegionInfo, sourceStoreI
 		log.Error("failed to get the store", zap.Uint64("store-id", sourceStoreID), errs.ZapError(errs.ErrGetSourceStore))
 		return nil
 	}
+	// A store that holds another peer of the region cannot take this peer:
+	// targetPeers is keyed by store, the two peers would collapse into one.
+	excluded := make(map[uint64]struct{}, len(selectedStores)+len(region.GetPeers()))
+	for id := range selectedStores {
+		excluded[id] = struct{}{}
+	}
+	for _, p := range region.GetPeers() {
+		if p.GetStoreId() != sourceStoreID {
+			excluded[p.GetStoreId()] = struct{}{}
+		}
+	}
 	filters := []filter.Filter{
-		filter.NewExcludedFilter(r.name, nil, selectedStores),
+		filter.NewExcludedFilter(r.name, nil, excluded),
 	}
 	scoreGuard := filter.NewPlacementSafeguard(r.name, r.cluster, region, sourceStore)
 	filters = append(filters, context.filters...)
